@@ -54,7 +54,7 @@ def retire(conn):
 
 REPLAY_HEAD = '''# replay of a counterexample found by /verif (property C08) on the real rpyc
 import sys
-sys.path.insert(0, "/repo")
+sys.path.insert(0, __import__("os").environ.get("VERIF_REPO", "/repo"))
 from rpyc.core.protocol import Connection
 from rpyc.core.service import VoidService
 from rpyc.core import consts, brine
